@@ -119,7 +119,23 @@ class PathCtx(object):
             if r == z3.unsat:
                 raise Infeasible()
             if r != z3.sat:
-                raise SolverUnknown("path condition: %s" % self.solver.reason_unknown())
+                # retry on a fresh non-incremental solver (other tactics apply there)
+                fresh = z3.Solver()
+                fresh.set("timeout", int(self.query_timeout_ms * 2))
+                fresh.add(self.solver.assertions())
+                t = time.time()
+                self.queries += 1
+                try:
+                    r2 = fresh.check()
+                except z3.Z3Exception:
+                    r2 = z3.unknown
+                self.solver_time += time.time() - t
+                if r2 == z3.unsat:
+                    raise Infeasible()
+                if r2 != z3.sat:
+                    raise SolverUnknown("path condition: %s" % self.solver.reason_unknown())
+                self.model = fresh.model()
+                return self.model
             self.model = self.solver.model()
         return self.model
 
@@ -273,7 +289,12 @@ class PathCtx(object):
         other = z3.Not(cond) if side else cond
         self.solver.push()
         self.solver.add(other)
+        self.solver.set("timeout", int(min(self.query_timeout_ms, 2000)))
         r = self._check()
+        self.solver.set("timeout", int(self.query_timeout_ms))
+        if r == z3.unknown:
+            ans = self._external(self.solver)
+            r = z3.sat if ans == "sat" else (z3.unsat if ans == "unsat" else z3.unknown)
         self.solver.pop()
         if r == z3.sat:
             self.pending.append(self.decisions + [not side])
@@ -368,6 +389,48 @@ class PathCtx(object):
         self.obligations.append(ob)
         return ob
 
+    def _external(self, solver_with_query):
+        """Decide the assertions of a z3 Solver object with the solver binaries
+        on PATH (cvc5 1.0.x, then z3 4.8.12): 'sat' | 'unsat' | 'unknown'."""
+        import subprocess
+        import tempfile
+        import os
+        text = "(set-logic ALL)\n" + solver_with_query.to_smt2()
+        secs = max(5, int(self.query_timeout_ms / 1000))
+        fd, path = tempfile.mkstemp(suffix=".smt2", prefix="symx-")
+        answers = []
+        try:
+            with os.fdopen(fd, "w") as f:
+                f.write(text)
+            for name, cmd in (("cvc5", ["/usr/bin/cvc5", "--tlimit=%d" % (secs * 1000), path]),
+                              ("z3-4.8.12", ["/usr/bin/z3", "-T:%d" % secs, path])):
+                if not os.path.exists(cmd[0]):
+                    continue
+                t = time.time()
+                try:
+                    out = subprocess.run(cmd, capture_output=True, text=True, timeout=secs + 5).stdout
+                except subprocess.TimeoutExpired:
+                    out = ""
+                self.queries += 1
+                self.solver_time += time.time() - t
+                lines = [l.strip() for l in out.strip().splitlines() if l.strip()]
+                first = lines[0] if lines else ""
+                if "(error" in out or first not in ("sat", "unsat"):
+                    continue
+                answers.append((name, first))
+                break
+        finally:
+            try:
+                os.unlink(path)
+            except OSError:
+                pass
+        if answers:
+            name, ans = answers[0]
+            key = "%s:%s" % (name, ans)
+            self.portfolio[key] = self.portfolio.get(key, 0) + 1
+            return ans
+        return "unknown"
+
     def _portfolio(self, negated):
         """The incremental solver gave up: retry the same query (a) on a fresh,
         non-incremental z3 solver, which enables tactics that push/pop disables,
@@ -392,30 +455,9 @@ class PathCtx(object):
         if r == z3.sat:
             self.portfolio["fresh-z3:sat"] = self.portfolio.get("fresh-z3:sat", 0) + 1
             return "sat", self.model_values(fresh.model())
-        binary = "/usr/bin/z3"
-        if os.path.exists(binary):
-            t = time.time()
-            fd, path = tempfile.mkstemp(suffix=".smt2", prefix="symx-")
-            try:
-                with os.fdopen(fd, "w") as f:
-                    f.write(fresh.to_smt2())
-                secs = max(5, int(self.query_timeout_ms / 1000 * 2))
-                try:
-                    out = subprocess.run([binary, "-T:%d" % secs, path], capture_output=True, text=True,
-                                         timeout=secs + 5).stdout
-                except subprocess.TimeoutExpired:
-                    out = ""
-            finally:
-                try:
-                    os.unlink(path)
-                except OSError:
-                    pass
-            self.queries += 1
-            self.solver_time += time.time() - t
-            first = out.strip().splitlines()[0].strip() if out.strip() else ""
-            if "(error" not in out and first == "unsat":
-                self.portfolio["z3-4.8.12:unsat"] = self.portfolio.get("z3-4.8.12:unsat", 0) + 1
-                return "unsat", None
+        ans = self._external(fresh)
+        if ans == "unsat":
+            return "unsat", None
         self.portfolio["unknown"] = self.portfolio.get("unknown", 0) + 1
         return "unknown", None
 
